@@ -300,6 +300,7 @@ def programs(tier: str) -> list[dict]:
     progs += list(P.fam_einsum())
     progs += list(P.fam_pairs())
     progs += list(P.fam_pad())
+    progs += list(P.fam_advanced_patterns())
     for p in progs:
         p["outs"] = {"out0": p["outs"]["out"]}
     for p in P.fam_concat_empty():
